@@ -25,6 +25,16 @@ CLAIMED = {
     text="Unbounded proof: symbolic n, period, frame numbers, versions, mute flags; the history quantifier is discharged by the class invariant + the inductive counter lemma.",
     note="Trusted: PyVC builtin models; token model of TRXC arguments (decimal literal <-> integer); send_msg used through its C13 contract; sender-side mute clause proved in C02.",
     design="9/C18"),
+ "C02": dict(
+    technique="contract-based deductive verification: PyVC VCs from the live burst_fwd.py/transceiver.py/fake_trx.py; loop invariant over a peer list of symbolic length with symbolic-identity objects (Burstall heap), per-peer ghost call counter for an arbitrary transceiver q; callee contracts for get_*_freq, trans, handle_data_msg; z3",
+    text="Unbounded proof: any number of pairwise-distinct peers (so 2..6 is covered), any power/tuning/hopping/mute state (frequencies are uninterpreted functions of (transceiver, FN)), any FN; exactly-one-copy-iff-in-deliver-set for an arbitrary q is the post-condition.",
+    note="Trusted: PyVC builtin models; identity semantics of == on transceivers (checked on the live classes); handle_data_msg's frame; datagram emission itself is C10/C18/C13.",
+    design="9/C02"),
+ "C03": dict(
+    technique="contract-based deductive verification: PyVC VCs from the live transceiver.py/data_if.py; three loop invariants in clck_tick with ghost position maps (bijections queue<->calls/warnings/new queue, quantified, discharged by z3), lock-ownership obligations on every _tx_queue access, inductive fate lemma over the contracts, interference pass (socket-thread actions injected at unprotected reads of fh)",
+    text="Unbounded proof over queue length, frame numbers (modular order on the hyperframe circle, so the wrap is covered) and histories (fate invariant); schedules: proof modulo statement-level atomicity (ownership + interference obligations).",
+    note="Trusted: PyVC builtin models; GIL atomicity of one attribute access / one locked region; threading.Lock is a mutex; queued FNs are valid (0..2715647); liveness half supplied by C09.",
+    design="9/C03"),
 }
 NOT_YET = "check not built yet in this session (design in DESIGN.md section 9); will be claimed when its obligations are discharged"
 
